@@ -14,6 +14,8 @@ package drivers
 
 //@ macro readerInv(r) = r.state >= 0 && r.state <= 4 && r.SysExBufferSize >= 1 && r.OnMsg != nil && (r.state == 3 ==> (r.sysexBf != nil && 1 <= r.sysexlen && r.sysexlen <= len(r.sysexBf) && len(r.sysexBf) == int(r.SysExBufferSize) && r.sysexBf[0] == 0xF0 && r.sysexTS <= r.ts_ms)) && (r.statusByte == 0 || (r.statusByte >= 0x80 && r.statusByte <= 0xEF)) && (r.statusByte != 0 ==> r.typ == (r.statusByte >> 4)) && (r.state == 1 ==> r.statusByte != 0) && (r.state >= 2 ==> r.statusByte == 0) && (r.state == 2 ==> ((r.typ == 0xF1 || r.typ == 0xF2 || r.typ == 0xF3) && r.statusByte == 0)) && ((r.state == 0 && r.statusByte != 0) ==> !r.issetBf)
 
+//@ macro absR(r) = RxS(r.state, r.statusByte, r.typ, r.issetBf, r.bf, r.sysexlen)
+
 //@ macro rxKind(r, b) = rxEmit(r.state, r.statusByte, r.typ, r.issetBf, b, r.sysexlen, int(r.SysExBufferSize), r.HandleSysex)
 
 //@ func (*Reader).eachByte$1
@@ -34,6 +36,7 @@ package drivers
 //@ ensures [P:C04] r.state == 2 ==> r.typ == rxCur(old(r.typ), b)
 //@ ensures [P:C04] (r.state == 1 || r.state == 2) ==> (r.issetBf == rxHave(old(r.state), old(r.statusByte), old(r.typ), old(r.issetBf), b) && (r.issetBf ==> r.bf == rxD1(old(r.state), old(r.statusByte), old(r.typ), old(r.issetBf), old(r.bf), b)))
 //@ ensures [P:C04] r.state == 3 ==> r.sysexlen == rxSL(old(r.state), b, old(r.sysexlen), int(r.SysExBufferSize), r.HandleSysex)
+//@ ensures [P:C04] rxNorm(absR(r)) == rxNorm(rxStep(old(absR(r)), b, int(r.SysExBufferSize), r.HandleSysex))
 //@ ensures [H] r.ts_ms == old(r.ts_ms) && r.SysExBufferSize == old(r.SysExBufferSize) && r.HandleSysex == old(r.HandleSysex) && r.OnMsg == old(r.OnMsg) && r.OnErr == old(r.OnErr)
 //@ ensures [P:C04] old(rxKind(r, b)) == 0 ==> cb_n == old(cb_n)
 //@ ensures [P:C04] old(rxKind(r, b)) != 0 ==> (cb_n == old(cb_n) + 1 && cb_fn(old(cb_n)) == r.OnMsg)
@@ -50,3 +53,33 @@ package drivers
 //@ ensures [P:C04] r.state == 3 && old(r.state) == 3 && b != 0xF0 ==> (r.sysexTS == old(r.sysexTS) && forall j int :: 0 <= j && j < old(r.sysexlen) ==> r.sysexBf[j] == old(r.sysexBf[j]))
 //@ ensures [P:C04] r.state == 3 && old(r.state) == 3 && b < 0x80 && r.HandleSysex ==> r.sysexBf[old(r.sysexlen)] == b
 //@ ensures [P:C04] b == 0xF0 ==> r.sysexTS == r.ts_ms
+
+//@ func (*Reader).Reset
+//@ requires r.OnMsg != nil
+//@ modifies *r
+//@ ensures [P:C06] readerInv(r) && r.state == 0 && r.statusByte == 0 && r.ts_ms == 0
+//@ ensures [H] r.OnMsg == old(r.OnMsg) && r.OnErr == old(r.OnErr) && r.HandleSysex == old(r.HandleSysex)
+//@ ensures [P:C04] old(r.SysExBufferSize) != 0 ==> r.SysExBufferSize == old(r.SysExBufferSize)
+
+//@ func NewReader
+//@ requires onMsg != nil
+//@ ensures [P:C06] fresh(result) && readerInv(result) && result.state == 0 && result.statusByte == 0 && result.ts_ms == 0
+//@ ensures [P:C14] result.OnMsg == onMsg && result.HandleSysex == config.SysEx
+//@ ensures [P:C04] config.SysExBufferSize != 0 ==> result.SysExBufferSize == config.SysExBufferSize
+
+//@ func (*Reader).EachMessage
+//@ requires readerInv(r)
+//@ requires deltaMilliSeconds >= 0 && r.ts_ms + deltaMilliSeconds >= r.ts_ms
+//@ modifies *r, cb_log
+//@ ensures [P:C06] readerInv(r)
+//@ ensures [P:C04] r.ts_ms == old(r.ts_ms) + deltaMilliSeconds
+//@ ensures [H] r.SysExBufferSize == old(r.SysExBufferSize) && r.HandleSysex == old(r.HandleSysex) && r.OnMsg == old(r.OnMsg) && r.OnErr == old(r.OnErr)
+//@ uses rxCongruence, rxEmitCongruence
+//@ ensures [P:C04] rxNorm(absR(r)) == rxNorm(rxRun(arr(bt), 0, len(bt), old(absR(r)), int(r.SysExBufferSize), r.HandleSysex))
+//@ ensures [P:C04] cb_n == old(cb_n) + rxCount(arr(bt), 0, len(bt), old(absR(r)), int(r.SysExBufferSize), r.HandleSysex)
+//@ loop 0 invariant readerInv(r) && r.ts_ms == old(r.ts_ms) + deltaMilliSeconds && cb_n >= old(cb_n)
+//@ loop 0 invariant rxNorm(absR(r)) == rxNorm(rxRun(arr(bt), 0, rangeindex + 1, old(absR(r)), int(r.SysExBufferSize), r.HandleSysex))
+//@ loop 0 invariant cb_n == old(cb_n) + rxCount(arr(bt), 0, rangeindex + 1, old(absR(r)), int(r.SysExBufferSize), r.HandleSysex)
+//@ loop 0 invariant r.SysExBufferSize == old(r.SysExBufferSize) && r.HandleSysex == old(r.HandleSysex) && r.OnMsg == old(r.OnMsg) && r.OnErr == old(r.OnErr)
+//@ loop 0 invariant -1 <= rangeindex && rangeindex < len(bt)
+//@ loop 0 decreases len(bt) - rangeindex
